@@ -33,7 +33,10 @@ class Q:
     def check(self, *conds, domain=None):
         self.queries += 1
         t0 = time.time()
-        self.solver.push()
+        # one-shot solver per query: z3's incremental core (push/pop) was up to 1000x slower on the
+        # ite-heavy terms of deeper unrollings than the default tactic pipeline
+        self.solver = z3.Solver()
+        self.solver.set("timeout", 120000)
         for c in conds:
             self.solver.add(c)
         for c in (domain or {}).values():
@@ -42,7 +45,6 @@ class Q:
         model = self.solver.model() if r == z3.sat else None
         if self.cross_check and r in (z3.sat, z3.unsat):
             self._cross(r)
-        self.solver.pop()
         dt = time.time() - t0
         self.solver_s += dt
         if dt > 10 and self.slow_log is not None:
@@ -57,6 +59,12 @@ class Q:
         import subprocess
         import tempfile
         txt = self.solver.to_smt2()
+        # z3 prints total division as bvudiv_i / bvurem_i (same function as SMT-LIB's bvudiv / bvurem)
+        for a, b in (("bvudiv_i", "bvudiv"), ("bvurem_i", "bvurem"), ("bvsdiv_i", "bvsdiv"), ("bvsrem_i", "bvsrem"), ("bvsmod_i", "bvsmod")):
+            txt = txt.replace(a, b)
+        if re.search(r"bv[us]mul_no(ovfl|udfl)|bv[us]add_no|bv[us]sub_no", txt):
+            self.cross_skipped = getattr(self, "cross_skipped", 0) + 1     # z3-only overflow predicates: not expressible for cvc5 1.0
+            return
         with tempfile.NamedTemporaryFile("w", suffix=".smt2", delete=False, dir=self.tmpdir) as fh:
             fh.write("(set-logic ALL)\n" + txt)
             path = fh.name
